@@ -44,8 +44,16 @@ pub fn step_observe_push(c: &OCfg) {
 }
 
 fn build_pre(c: &OCfg) -> (FuturesOrdered<Fut>, fob::OPre) {
+    build_pre_out(c, None)
+}
+
+/// `out`: a concrete value of next_outgoing_index instead of an arbitrary one
+fn build_pre_out(c: &OCfg, out: Option<usize>) -> (FuturesOrdered<Fut>, fob::OPre) {
     gh::reset();
-    let o = fob::gen_opre(c);
+    let mut o = if out.is_some() { fob::gen_opre_narrow(c) } else { fob::gen_opre(c) };
+    if let Some(x) = out {
+        o.out = x;
+    }
     let gh = g();
     let p = o.p;
     let mut i = 0;
@@ -80,7 +88,13 @@ fn build_pre(c: &OCfg) -> (FuturesOrdered<Fut>, fob::OPre) {
 
 /// Step(poll_next) from an arbitrary INV_ordered pre-state (one inner group)
 pub fn step_poll(c: &OCfg) {
-    let (mut f, o) = build_pre(c);
+    step_poll_out(c, None)
+}
+
+/// as `step_poll`; with `Some(out)` the position counter is concrete (the
+/// re-basing block is then either skipped or taken, concretely)
+pub fn step_poll_out(c: &OCfg, out: Option<usize>) {
+    let (mut f, o) = build_pre_out(c, out);
     let gh = g();
     let p = o.p;
     gh.selfwake_left = c.selfwakes;
